@@ -150,11 +150,13 @@ Judge_bench_roundtrip(e) ==
 
 (* fast parser vs full parser on the same text: e.cf, e.cs, e.excf, e.excs.  Identical graphs after renaming the
    shared constant nodes tie0 <-> tie_0, tie1 <-> tie_1; and the agreement clauses above. *)
-TieRen(nm) == IF nm = "tie0" THEN "tie_0" ELSE IF nm = "tie1" THEN "tie_1" ELSE nm
-RenView(c) == [nodes |-> {TieRen(x) : x \in NameSet(c)},
-               ty    |-> {<<TieRen(c.names[i]), c.ty[i]>> : i \in 1..c.n},
-               out   |-> {TieRen(x) : x \in OutputNames(c)},
-               edges |-> {<<TieRen(ed[1]), TieRen(ed[2])>> : ed \in EdgeNames(c)},
+\* the shared constant nodes are identified by what they are, not by their names
+TieRen(c, nm) == LET t == c.ty[Idx(c, nm)] IN
+                 IF t \in Consts /\ HasPrefix(nm, "tie") THEN "<const " \o t \o ">" ELSE nm
+RenView(c) == [nodes |-> {TieRen(c, x) : x \in NameSet(c)},
+               ty    |-> {<<TieRen(c, c.names[i]), c.ty[i]>> : i \in 1..c.n},
+               out   |-> {TieRen(c, x) : x \in OutputNames(c)},
+               edges |-> {<<TieRen(c, ed[1]), TieRen(c, ed[2])>> : ed \in EdgeNames(c)},
                bbs   |-> NamedView(c).bbs]
 Judge_parse2(e) ==
   IF e.excf # "" \/ e.excs # "" THEN
